@@ -40,6 +40,7 @@ FN_MAPS = 'mc.checks.c14_mapping:case_maps'
 FN_VOL = 'mc.checks.c14_mapping:case_volmodel'
 FN_REJ = 'mc.checks.c14_mapping:case_reject'
 FN_SOLVE = 'mc.checks.c14_mapping:case_solve'
+FN_GRID = 'mc.checks.c14_mapping:case_autogrid'
 
 MAPPINGS = zoo.MAPPINGS
 NSIG = 49
@@ -390,7 +391,8 @@ def cases_reject(tier):
                 for mode in ('init-scalar', 'set-scalar'):
                     out.append({'prop': prop, 'mapping': mp, 'value': tok,
                                 'mode': mode, 'pos': None})
-                for mode in ('init-array', 'init-flat', 'set-array'):
+                for mode in ('init-array', 'init-flat', 'set-array',
+                             'set-inplace', 'set-view'):
                     for pos in poss:
                         out.append({'prop': prop, 'mapping': mp,
                                     'value': tok, 'mode': mode, 'pos': pos})
@@ -456,13 +458,24 @@ def case_reject(c):
             model = emg3d.Model(grid, mapping=mp, **kw)
             before = getattr(model, prop)
             snap = None if before is None else before.copy()
+            if mode in ('set-inplace', 'set-view'):
+                # what ``model.prop op= ...`` / ``model.prop[i] = v;
+                # model.prop = model.prop`` do: the setter is handed the
+                # array the model returned (or a view of it), already
+                # edited in place
+                stored = getattr(model, prop)
+                stored[np.unravel_index(pos, shape, order='F')] = value
+                offered = stored if mode == 'set-inplace' else stored[...]
+                snap = None
             try:
                 setattr(model, prop, offered)
                 got = 'accept'
             except ValueError:
                 got = 'reject'
             after = getattr(model, prop)
-            if got == 'reject':
+            if got == 'reject' and snap is None and mode != 'set-absent':
+                pass        # the in-place edit itself is the caller's doing
+            elif got == 'reject':
                 same = (after is None and snap is None) or (
                     after is not None and snap is not None and
                     np.array_equal(after, snap))
@@ -641,6 +654,90 @@ def case_solve(c):
                         int(np.floor(np.log10(worst + 1e-300))))}
 
 
+# ------------------------------------------------- automatic gridding inputs
+def case_autogrid(c):
+    """The computational grid of a simulation is derived from the model
+    (estimate_gridding_opts: conductivities of the source cell and of the six
+    outer faces).  The same physical model must yield the same gridding
+    properties (as conductivities), the same mesh and hence the same data in
+    all six mappings - also when the model is heterogeneous within a face."""
+    import emg3d
+    shape = tuple(c['shape'])
+    grid = emg3d.TensorMesh([np.ones(n)*100.0 for n in shape],
+                            origin=(-100.0*shape[0]/2, -100.0*shape[1]/2,
+                                    -100.0*shape[2]))
+    sig = [zoo.cell_values(shape, 'rnd', ('c14g', d), 0.05, 5.0)
+           for d in 'xyz']
+    if c['prof'] == 'lay':
+        sig = [np.broadcast_to(x[:1, :1, :], shape).copy() for x in sig]
+    src = emg3d.TxElectricDipole((13.0, -20.0, -270.0, 30.0, 10.0))
+    rec = emg3d.RxElectricPoint((120.0, 40.0, -240.0, 0.0, 0.0))
+    survey = emg3d.Survey(src, rec, c['freq'])
+    viol, compared = [], 0
+    ref_props, ref_nodes = None, None
+    for mp in MAPPINGS:
+        model = build_model(grid, mp, c['case'], sig, None, None)
+        with warnings.catch_warnings(), _quiet():
+            g = emg3d.meshes.estimate_gridding_opts(
+                dict(c['gopts']), model, survey)
+            props = ref_backward(g['mapping'], np.array(g['properties'],
+                                                        dtype=float))
+            try:
+                mesh = emg3d.construct_mesh(**g)
+                nodes = [mesh.nodes_x, mesh.nodes_y, mesh.nodes_z]
+            except RuntimeError:        # 'No suitable grid found': loud, but
+                nodes = [np.zeros(1)]*3   # then for every mapping alike
+        # the documented choice: lowest conductivity of the source cell / of
+        # each outer face, over all directions of the anisotropy case
+        eff = eff_sigmas(c['case'], sig)
+        want = [min(x[sl].min() for x in eff) for sl in (
+            (0, slice(None), slice(None)), (-1, slice(None), slice(None)),
+            (slice(None), 0, slice(None)), (slice(None), -1, slice(None)),
+            (slice(None), slice(None), 0), (slice(None), slice(None), -1))]
+        compared += 2
+        if not np.allclose(props[1:], want, rtol=1e-10, atol=0):
+            viol.append({
+                'cls': 'gridding-properties-not-lowest-face-conductivity',
+                'what': f'{mp}, {c}: buffer conductivities {props[1:]} != '
+                        f'lowest conductivities of the six faces {want}'})
+        if ref_props is None:
+            ref_props, ref_nodes = props, nodes
+            continue
+        if not np.allclose(props, ref_props, rtol=1e-10, atol=0):
+            viol.append({'cls': 'gridding-properties-depend-on-mapping',
+                         'what': f'{mp} vs {MAPPINGS[0]}, {c}: {props} vs '
+                                 f'{ref_props}'})
+        if any(a.shape != b.shape or not np.allclose(a, b, rtol=1e-9,
+                                                     atol=1e-6)
+               for a, b in zip(nodes, ref_nodes)):
+            viol.append({'cls': 'automatic-grid-depends-on-mapping',
+                         'what': f'{mp} vs {MAPPINGS[0]}, {c}: cells '
+                                 f'{[len(x)-1 for x in nodes]} vs '
+                                 f'{[len(x)-1 for x in ref_nodes]} (0 = no '
+                                 'grid found)'})
+    return {'viol': viol, 'compared': compared, 'transitions': len(MAPPINGS),
+            'nontrivial': True,
+            'outcome': (c['case'], c['prof'],
+                        tuple(len(x) - 1 for x in ref_nodes))}
+
+
+def cases_autogrid(tier):
+    out = []
+    for shape in ((4, 4, 4), (5, 3, 6)) + (((8, 6, 5),) if tier != 'quick'
+                                           else ()):
+        for case_ in ('isotropic', 'VTI', 'HTI', 'triaxial'):
+            for prof in ('all', 'lay'):
+                for freq in (1.0, -30.0):
+                    for gopts in ({}, {'center_on_edge': True},
+                                  {'lambda_factor': 0.5}):
+                        if tier == 'quick' and gopts and freq < 0:
+                            continue
+                        out.append({'shape': shape, 'case': case_,
+                                    'prof': prof, 'freq': freq,
+                                    'gopts': gopts})
+    return out
+
+
 # ------------------------------------------------------------------------ run
 def prepare(ctx):
     impl.warm()
@@ -683,6 +780,14 @@ def run(ctx):
                          ' / last) + assignment to absent properties; '
                          'non-trivial = verdict fixed by the property',
                     time_cap=cap)
+    if ctx.wants('autogrid'):
+        ctx.explore('autogrid', FN_GRID, cases_autogrid(ctx.tier),
+                    engine='E1',
+                    rule='model shapes x 4 cases x {heterogeneous within '
+                         'faces, layered} x {f>0, f<0} x gridding options; '
+                         'per case the six mappings through '
+                         'estimate_gridding_opts + construct_mesh: same '
+                         'conductivities, same mesh', time_cap=cap)
     if ctx.wants('volmodel'):
         ctx.explore('volmodel', FN_VOL, cases_volmodel(ctx.tier), engine='E1',
                     rule='full product (49 single-value models + 1 '
